@@ -7,7 +7,7 @@ sys.path.insert(0, os.path.join(os.path.dirname(os.path.dirname(os.path.abspath(
 import frrparse as fp
 
 CLOSURE = ["Model/FrrAst.v", "Model/FrrRender.v", "Model/FrrSem.v", "Model/FrrSpec.v", "Proofs/FrrSortP.v", "Proofs/FrrP.v", "Proofs/FrrListsP.v",
-           "Proofs/FrrShapeP.v", "Proofs/FrrSemP.v", "Proofs/FrrOutP.v", "Proofs/FrrExactP.v", "Proofs/FrrWfP.v", "Proofs/FrrAdvPermP.v",
+           "Proofs/FrrShapeP.v", "Proofs/FrrSemP.v", "Proofs/FrrOutP.v", "Proofs/FrrExactP.v", "Proofs/FrrWfP.v", "Proofs/FrrAdvPermP.v", "Proofs/FrrSeqP.v",
            "Model/FrrK8s.v", "Model/FrrMgr.v", "Proofs/FrrK8sP.v", "Proofs/FrrMgrP.v"]
 COQ_FILES = ["Corr/Run_Frr.v", "Corr/Run_FrrMgr.v"]
 PKG = "internal/bgp/frr"
